@@ -41,6 +41,9 @@ func ReplayListener(c LCase) LResult {
 	if c.Cfg.Kind == "srv2busy" {
 		return replayServerBusyPort(c)
 	}
+	if c.Cfg.Kind == "wsupgrade" {
+		return replayWsHalfUpgrade(c)
+	}
 	res := LResult{N: c.N, Cfg: c.Cfg, Matched: true}
 	bg := context.Background()
 	var lis lime.TransportListener
@@ -305,6 +308,68 @@ func replayServerBusyPort(c LCase) LResult {
 		_ = t.Close()
 	}
 	res.Actual = append(res.Actual, d)
+	for i, p := range c.Obs {
+		if i >= len(res.Actual) || !(res.Actual[i].Res == p.Res || (p.Res == "ok|err" && (res.Actual[i].Res == "ok" || res.Actual[i].Res == "err"))) {
+			res.Matched = false
+		}
+	}
+	return res
+}
+
+// replayWsHalfUpgrade: a connection to a websocket listener that has not finished its HTTP upgrade when
+// the listener is closed must be closed with it (nothing of a closed listener keeps serving).
+func replayWsHalfUpgrade(c LCase) LResult {
+	res := LResult{N: c.N, Cfg: c.Cfg, Matched: true}
+	bg := context.Background()
+	var lis lime.TransportListener
+	var addr *net.TCPAddr
+	var err error
+	for try := 0; try < 50; try++ {
+		addr = nextAddr()
+		lis = lime.NewWebsocketTransportListener(&lime.WebsocketConfig{})
+		if err = lis.Listen(bg, addr); err == nil {
+			break
+		}
+	}
+	if err != nil {
+		res.Note, res.Matched = "setup: "+err.Error(), false
+		return res
+	}
+	res.Actual = append(res.Actual, LEv{K: "op", Op: "listen", Res: "ok"})
+	var raw net.Conn
+	for i := 0; i < 50; i++ {
+		if raw, err = net.DialTimeout("tcp", addr.String(), time.Second); err == nil {
+			break
+		}
+		time.Sleep(5 * time.Millisecond)
+	}
+	if err != nil {
+		lis.Close()
+		res.Note, res.Matched = "setup: dial: "+err.Error(), false
+		return res
+	}
+	defer raw.Close()
+	fmt.Fprintf(raw, "GET / HTTP/1.1\r\nHost: %s\r\nUpgrade: websocket\r\n", addr.String()) // ... and no more
+	time.Sleep(50 * time.Millisecond)
+	ev := LEv{K: "op", Op: "close", Res: classify(lis.Close())}
+	if ev.Res == "timeout" {
+		ev.Res = "err"
+	}
+	res.Actual = append(res.Actual, ev)
+	out := "open"
+	raw.SetReadDeadline(time.Now().Add(1200 * time.Millisecond))
+	buf := make([]byte, 512)
+	for {
+		_, rerr := raw.Read(buf)
+		if rerr == nil {
+			continue
+		}
+		if ne, ok := rerr.(net.Error); !(ok && ne.Timeout()) {
+			out = "closed"
+		}
+		break
+	}
+	res.Actual = append(res.Actual, LEv{K: "op", Op: "halfopen", Res: out})
 	for i, p := range c.Obs {
 		if i >= len(res.Actual) || !(res.Actual[i].Res == p.Res || (p.Res == "ok|err" && (res.Actual[i].Res == "ok" || res.Actual[i].Res == "err"))) {
 			res.Matched = false
